@@ -647,7 +647,13 @@ def _shrink_history(runner, cases):
 
 
 def run(ctx):
+    global HANG_LIMIT
     t0 = time.time()
+    if not ctx.thorough and 'C06_HANG_LIMIT' not in os.environ:
+        # quick tier: a single case run alone is declared hung after 60 s wall (and >= 20 s CPU); every returning call of the
+        # lattice needs < 1 s, so the margin is still 60x.  Thorough keeps 120 s.
+        HANG_LIMIT = 60.0
+        os.environ['C06_HANG_LIMIT'] = '60'
     if ctx.thorough and os.environ.get('C06_DEV_ONLY_ASAN') == '1':     # development switch, never set by ./check users
         return _asan_leg(ctx)
     subl = enumerate_cases(ctx.tier, ctx.seed)
